@@ -335,8 +335,14 @@ class Machine:
             return None
         if c == '()' or c.startswith('PhantomData') or c.startswith('ZeroSized') or c.startswith('std::marker::PhantomData'):
             return []
-        if c in ('+inf_f64', 'inff64', '+inff64'):
-            return [math.inf if s.mode == 'CONC' else app('INF', 'Real')]
+        m = re.match(r'^([+-])?[Ii]nf_?(f64|f32)$', c)
+        if m:
+            if s.mode in ('CONC', 'FP'):
+                return [-math.inf if m.group(1) == '-' else math.inf]
+            t = app('CONST_infinity', 'Real')
+            return [neg(t) if m.group(1) == '-' else t]
+        if re.match(r'^[+-]?NaN_?(f64|f32)$', c):
+            return [math.nan if s.mode in ('CONC', 'FP') else app('CONST_nan', 'Real')]
         if c in ('f64::NAN', 'NaNf64', 'NaN_f64'):
             return [math.nan if s.mode == 'CONC' else app('NAN', 'Real')]
         if c == '[]':
@@ -344,8 +350,13 @@ class Machine:
         r = s.const_struct(c)
         if r is not None:
             return r
-        if re.match(r'^[\w:]+::promoted\[\d+\]$', c) and c in s.fns:
-            return s.eval_promoted(c)
+        if re.match(r'^[\w:]+::promoted\[\d+\]$', c):
+            if c in s.fns:
+                return s.eval_promoted(c)
+            tail = '::'.join(c.split('::')[-2:])
+            for k in s.fns:
+                if k == tail or k.endswith('::' + tail):
+                    return s.eval_promoted(k)
         m = re.match(r'^\{0x([0-9a-f]+) as (.*)\}$', c)
         if m:
             return [Ptr(('dangling', int(m.group(1), 16)), 0)]
@@ -1070,6 +1081,11 @@ class Machine:
             if atom is not None and atom[0] == 'not' and is_sym(atom[1]):
                 atom = node(atom[1])
             free_atom = atom is not None and atom[0] in ('app', 'var') and s.free_bool_atoms
+            if free_atom and atom[0] == 'app':
+                # not free when the contract decides it: equal or all-concrete arguments
+                args = atom[2:]
+                if (len(args) >= 2 and args[0] == args[1]) or not any(is_sym(z) for z in args[:2]):
+                    free_atom = False
             if c is True or free_atom or s.feasible(q):
                 live.append((q, cont))
             else:
